@@ -237,7 +237,11 @@ func drawCase(t *rapid.T) *Case {
 	npts := rapid.IntRange(1, 6).Draw(t, "npts")
 	for i := 0; i < npts; i++ {
 		var x float64
-		switch rapid.IntRange(0, 5).Draw(t, "kind") {
+		switch rapid.IntRange(0, 6).Draw(t, "kind") {
+		case 6:
+			// just below / above a grid point: "the mass at points <= u" must not snap to the grid
+			g := float64(rapid.IntRange(0, 2*nn).Draw(t, "w")) / 2
+			x = rapid.SampledFrom([]float64{math.Nextafter(g, math.Inf(-1)), math.Nextafter(g, math.Inf(1)), g - 1e-13, g + 1e-13, g - 1e-9}).Draw(t, "near")
 		case 0, 1:
 			x = float64(rapid.IntRange(0, 2*nn).Draw(t, "w")) / 2
 		case 2:
